@@ -8,6 +8,7 @@ RULE = ("HEX-RT: per variant, seeded plausible/random/degenerate hashes through 
         "store_into_str_bytes (both prefixes), every parse entry point (auto/with/empty, mixed letter case, "
         "FromStr, from_str_with), plus every value of every header byte and of one body byte.  HEX-CHAIN: "
         "parse(format(h)) == h and format(parse(s)) == T1+upper(strip(s)) evaluated on the implementation alone.  HEX-CANONICAL: the near-valid stream (single/double damage at every position, all 65536 byte pairs at a header and a body digit-pair position): every string the parser accepts must re-format to T1 + its own upper-cased digits. "
+        "HEX-RT and HEX-CANONICAL are repeated on the builds that compile the other hex tables/decoders (no hex-simd; half, quarter, min decode tables; half, min encode tables), each against the model under the matching flags. "
         "Non-trivial = a case whose outcome is ok/value (a real round trip), distinct by case text.")
 
 
@@ -30,6 +31,19 @@ def run(ctx):
     near += suites.hex_pair_sweep_cases(ctx.rng.fork("nearsweep"), ctx.tier)
     ctx.correspond("HEX-CANONICAL", near, hb, db, flags=fl, predicate=pred_canonical, coq_sample=6,
                    nontrivial=lambda c, i: i.startswith("ok"))
+    # the same two suites on the builds that compile the OTHER hex tables / decoders (table encoders and decoders without hex-simd;
+    # half / quarter / min decode tables; half / min encode tables): the property is about every build's text form
+    others = ["nosimd", "embedded", "lowmem", "decq", "decmin"]
+    near2 = [c for c in near if c.startswith("parse")][:: (3 if ctx.tier == "quick" else 1)]
+    for name in others:
+        hb2 = ctx.harness(name)
+        if hb2 is None:
+            continue
+        fl2 = configs.flags(name)
+        ctx.correspond("HEX-RT[%s]" % name, cases, hb2, db, flags=fl2, predicate=pred, coq_sample=0,
+                       nontrivial=lambda c, i: i.startswith("ok") or i.startswith("x"))
+        ctx.correspond("HEX-CANONICAL[%s]" % name, near2, hb2, db, flags=fl2, predicate=pred_canonical, coq_sample=0,
+                       nontrivial=lambda c, i: i.startswith("ok"))
     return finish(ctx)
 
 
